@@ -5,6 +5,9 @@ package c06
 import (
 	"encoding/json"
 	"fmt"
+	"net/http"
+	"net/url"
+	"reflect"
 	"sort"
 	"strings"
 	"testing"
@@ -148,12 +151,42 @@ func evalCase(c *Case) (kind, sig, msg string, removedApplied bool) {
 		if got.Err == "" {
 			return "C06/empty-cut-resolved", "empty-cut", fmt.Sprintf("cut %s (T=%d V=%q) selects no operation but resolution succeeded: %s", c.Cut, c.T, c.V, js(got)), false
 		}
+		q := url.Values{}
+		if c.Cut == "time" {
+			q.Set("versionTime", rfc3339(c.T))
+		} else {
+			q.Set("versionId", c.V)
+		}
+		if st, body, pn := restResolve(c, pub, unpub, q); pn != "" {
+			return "C06/panic", "panic", "REST resolve handler panicked: " + pn, false
+		} else if st == http.StatusOK {
+			return "C06/empty-cut-resolved", "empty-cut-rest", fmt.Sprintf("REST resolution with %s selects no operation but answered 200: %s", q.Encode(), js(body)), false
+		}
 		return "", "", "", false
 	}
 	tp, tu := tc.Stores()
 	want = res.Resolve(pc, c.Suffix, tp, tu)
 	if d := res.SameState(got, want); len(d) > 0 {
 		return "C06/version-mismatch", "version-mismatch", fmt.Sprintf("resolution at %s cut (T=%d %s, V=%q) differs from resolution of the truncated history on %v: versioned=%s truncated=%s", c.Cut, c.T, rfc3339(c.T), c.V, d, js(got), js(want)), false
+	}
+	// the same relation at the REST interface: GET <did>?versionTime= / ?versionId= over the full stores against a plain
+	// GET over the truncated stores (every third case)
+	if caseID(c)%3 == 0 {
+		q := url.Values{}
+		if c.Cut == "time" {
+			q.Set("versionTime", rfc3339(c.T))
+		} else {
+			q.Set("versionId", c.V)
+		}
+		fs, fb, fp := restResolve(c, pub, unpub, q)
+		tcase := &Case{Case: *tc}
+		ts, tb, tpn := restResolve(tcase, tp, tu, nil)
+		if fp != "" || tpn != "" {
+			return "C06/panic", "panic", "REST resolve handler panicked: " + fp + tpn, false
+		}
+		if (fs == http.StatusOK) != (ts == http.StatusOK) || (fs == http.StatusOK && !reflect.DeepEqual(fb, tb)) {
+			return "C06/version-mismatch", "version-mismatch-rest", fmt.Sprintf("REST resolution with %s answers %d %s, plain REST resolution of the truncated history answers %d %s", q.Encode(), fs, js(fb), ts, js(tb)), false
+		}
 	}
 	// non-triviality: does the full resolution apply an operation that the cut removes?
 	full := c.Case.Model()
